@@ -20,7 +20,7 @@
 (* `hist` is kept by the generator configurations only (KeepHist): the events with the outcome  *)
 (* the specification expects, printed when a history is complete, for replay into the code.     *)
 EXTENDS Calendar, TLC, Json, FiniteSetsExt, Randomization
-CONSTANTS Keys, NHol, NWk, NLo, NHi, ConAdjs, Rich, MaxObj, Depth, KeepHist,
+CONSTANTS Keys, NHol, NWk, NLo, NHi, ConAdjs, ConFull, Rich, MaxObj, Depth, KeepHist,
           Fan            \* generator: at most Fan randomly drawn parameter choices per step (0 = all)
 
 VARIABLES st, last, hist
@@ -31,13 +31,16 @@ E  == Ord(2000, 1, 31)        \* a Monday, the month end;  E - 4 Thu, E - 3 Fri,
 \* none / a Saturday and the Tuesday / run across weekend and month end / Thu-Fri / month end
 HolMenu == <<{}, {E - 2, E + 1}, {E - 3, E, E + 1}, {E - 4, E - 3}, {E}>>
 WkMenu  == <<{6}, {}, {4, 5}, {5, 6}>>
-\* wide; narrow: begins on a Thursday (a holiday of menu 4) / ends on a Tuesday (a holiday of menus 2, 3); on Saturdays
+\* first day: weeks before / the Thursday (a holiday of menu 4) / the Saturday;  last day: the Tuesday (a holiday of menus
+\* 2, 3) / weeks after / a Saturday
 LoMenu  == <<E - 25, E - 4, E - 2>>
-HiMenu  == <<E + 27, E + 1, E + 5>>
+HiMenu  == <<E + 1, E + 27, E + 5>>
 Opt(menu, n) == {<<>>} \cup {<<menu[i]>> : i \in 1..n}
 AllParams == {[hol |-> h, wk |-> w, lo |-> l, hi |-> u] : h \in Opt(HolMenu, NHol), w \in Opt(WkMenu, NWk),
                                                           l \in Opt(LoMenu, NLo), u \in Opt(HiMenu, NHi)}
 Params == AllParams \ {NoParams}
+\* Calendar(...): any of the parameters, or (ConFull, to keep the model checker's state space small) all four of them
+ConParams == IF ConFull THEN {P \in AllParams : Given(P.hol) /\ Given(P.wk) /\ Given(P.lo) /\ Given(P.hi)} ELSE AllParams
 Q(op, t, n, u, a) == [op |-> op, t |-> t, n |-> n, u |-> u, a |-> a]
 \* both paths of add from a Friday and a Saturday, with the calendar's own and with a passed convention; the table-only
 \* queries; the days whose status the menus change (the Saturday, the last day of the narrow range); a single-day range
@@ -116,21 +119,33 @@ QueryObj(o, q) ==
     /\ UNCHANGED last
     /\ Log([op |-> "QueryObj", o |-> o, q |-> q, want |-> Want(st.heap[o], q)])
 
+\* (the actions over the objects of the heap - a set that depends on the state - get a definition of their own, so
+\*  that TLC's coverage names them one by one)
+AnyRegisterObject     == \E o \in Objs : RegisterObject(o)
+AnyRegisterObjectWith == \E o \in Objs, P \in Params : RegisterObjectWith(o, P)
+AnyQueryObj           == \E o \in Objs, q \in QM : QueryObj(o, q)
 Next == \/ \E k \in Keys, P \in Params : Register(k, P)
-        \/ \E k \in Keys, P \in AllParams, a \in ConAdjs : Construct(k, P, a)
-        \/ \E o \in Objs : RegisterObject(o)
-        \/ \E o \in Objs, P \in Params : RegisterObjectWith(o, P)
+        \/ \E k \in Keys, P \in ConParams, a \in ConAdjs : Construct(k, P, a)
+        \/ AnyRegisterObject
+        \/ AnyRegisterObjectWith
         \/ \E k \in Keys : Fetch(k)
         \/ \E k \in Keys, q \in QM : Query(k, q)
-        \/ \E o \in Objs, q \in QM : QueryObj(o, q)
+        \/ AnyQueryObj
 
 \* ---- generator (simulation) --------------------------------------------------------------------
 \* A history of Depth randomly drawn calls (a few randomly drawn argument choices of every kind of call per step -
-\* Fan for the registrations, 4 Fan for the queries - one of them taken), printed when complete together with `finals`: every question the statement pins down
+\* Fan shapes for the registrations, 8 Fan for the queries - one of them taken), printed when complete together with `finals`: every question the statement pins down
 \* about the state reached - each registered key fetched, each askable query of the menu by key and on each loose
 \* object.  Queries and fetches leave `last` and every configuration unchanged (UNCHANGED last; DoQuery only builds
 \* tables), so the expected answers of the finals hold in whatever order they are asked after the history.
-Pick(n, S) == IF Fan = 0 \/ Cardinality(S) <= n THEN S ELSE RandomSubset(n, S)
+\* (TLC evaluates constant-level expressions once and for all: the draw is made to depend on the state, so that it is
+\*  repeated at every step)
+Pick(n, S) == IF Fan = 0 \/ Cardinality(S) <= n THEN S ELSE RandomSubset(n, {x \in S : NObj >= 0})
+\* the parameters of a registration are drawn by SHAPE first (which of the four are given: all 15 shapes are equally
+\* likely, "only t0" as likely as "all four"), then by value
+ShapeOf(P) == {i \in 1..4 : Given(<<P.hol, P.wk, P.lo, P.hi>>[i])}
+Shapes == {ShapeOf(P) : P \in Params}
+PickParams(n) == UNION {Pick(1, {P \in Params : ShapeOf(P) = g}) : g \in Pick(n, Shapes)}
 FinalsOf(s, l) ==
     LET ff == {[op |-> "Fetch", k |-> k, want |-> HolSeq(l[k][1].hol)] : k \in {k \in Keys : s.reg[k] # 0}}
         fq == {[op |-> "Query", k |-> x[1], q |-> x[2], want |-> Want([cfg |-> l[x[1]][1]], x[2])] :
@@ -140,13 +155,13 @@ FinalsOf(s, l) ==
     IN  [fetch |-> SetToSeq(ff), query |-> SetToSeq(fq), queryobj |-> SetToSeq(fo)]
 Complete == KeepHist /\ Len(hist) = Depth
 Finish  == Complete /\ PrintT(ToJson([hist |-> hist, finals |-> FinalsOf(st, last)])) /\ UNCHANGED vars
-NextGen == \/ \E x \in Pick(Fan, Keys \X Params) : Register(x[1], x[2])
-           \/ \E x \in Pick(1, Keys \X AllParams \X ConAdjs) : Construct(x[1], x[2], x[3])
+NextGen == \/ \E k \in Pick(1, Keys), P \in PickParams(Fan) : Register(k, P)
+           \/ \E x \in Pick(1, Keys \X ConParams \X ConAdjs) : Construct(x[1], x[2], x[3])
            \/ \E o \in Pick(2, Objs) : RegisterObject(o)
-           \/ \E x \in Pick(3 * Fan, Objs \X Params) : RegisterObjectWith(x[1], x[2])
+           \/ \E o \in Pick(2, Objs), P \in PickParams(Fan) : RegisterObjectWith(o, P)
            \/ \E k \in Pick(1, Keys) : Fetch(k)
-           \/ \E x \in Pick(4 * Fan, Keys \X QM) : Query(x[1], x[2])
-           \/ \E x \in Pick(2 * Fan, Objs \X QM) : QueryObj(x[1], x[2])
+           \/ \E x \in Pick(8 * Fan, Keys \X QM) : Query(x[1], x[2])
+           \/ \E x \in Pick(4 * Fan, Objs \X QM) : QueryObj(x[1], x[2])
            \/ Finish
 
 \* ---- invariants -------------------------------------------------------------------------------
